@@ -29,7 +29,7 @@ CHECKS = {
              'collapse_refines_measure, spec_measure_group_char, eval_hom, central_is_scalar); (O) every record, peek/is_deterministic/'
              'expectation answer and measure-after-peek of the real simulator (3 widths, index straddling 64/128/256, all gates, '
              'feedback, MPP/SPP, REPEAT, `!`) must be a solution of the specification\'s symbolic sign forms, decided by the verified '
-             'GF(2) solver (sound+complete); free measurements must take both values. Reference samples through the loop-folding path (ReferenceSampleTree, REPEAT >= 10 with the record replayed for skipped iterations, feedback looking back across the loop, pre-loop results that differ from the periodic content) must solve the forms of the unrolled circuit. TableauSimulator measurement / reset routines, collapse wrappers and pair-measurement segments are regenerated from source (GenProofs_TabMeas); the hand model coq/Mpp.v of gate_decomposition.cc (MPP, SPP, pair segments, reversed segments) is extracted and run against the real functions on the same instructions, and MppProofs proves that every flushed block measures each of its (pairwise disjoint) products with the right sign, for products of any size. Whole runs: Run.run_refines (any sequence of Clifford steps and Hermitian measurements refines the predicate semantics), TableGood (every table unitary is such a step), ConjMeas (measurement through a basis change), ResetRun; RunComplete.run_complete is the converse (the simulator can report every record the semantics allows, so its reportable records are exactly the legal ones). SpecSem: the executable specification behind the oracle is itself proved sound for the predicate semantics - measurement (both branches), controlled Paulis, table gates, initial state, and whole circuits over these primitives under every assignment of the variables (SpecSemFull.spec_circuits_sound_unconditional; the completeness of its GF(2) elimination is Elim.elimination_complete).',
+             'GF(2) solver (sound+complete); free measurements must take both values. Reference samples through the loop-folding path (ReferenceSampleTree, REPEAT >= 10 with the record replayed for skipped iterations, feedback looking back across the loop, pre-loop results that differ from the periodic content) must solve the forms of the unrolled circuit. TableauSimulator measurement / reset routines, collapse wrappers and pair-measurement segments are regenerated from source (GenProofs_TabMeas); the hand model coq/Mpp.v of gate_decomposition.cc (MPP, SPP, pair segments, reversed segments) is extracted and run against the real functions on the same instructions, and MppProofs proves that every flushed block measures each of its (pairwise disjoint) products with the right sign, for products of any size. Whole runs: Run.run_refines (any sequence of Clifford steps and Hermitian measurements refines the predicate semantics), TableGood (every table unitary is such a step), ConjMeas (measurement through a basis change), ResetRun; RunComplete.run_complete is the converse (the simulator can report every record the semantics allows, so its reportable records are exactly the legal ones). SpecSem: the executable specification behind the oracle is itself proved sound for the predicate semantics - measurement (both branches), controlled Paulis, table gates, initial state, and whole circuits over these primitives under every assignment of the variables (SpecSemFull.spec_circuits_sound_unconditional; the completeness of its GF(2) elimination is Elim.elimination_complete), and complete: every legal record is the evaluation of the outcome forms under some assignment (SpecComplete.spec_complete_oracle).',
         note=TB + ' Whole runs are proved to refine the predicate-level semantics at the level of maps on Paulis (Run.run_refines: any sequence '
                   'of Clifford maps and Hermitian measurements, any coins); that each table gate lifts to such a map on XZ-form strings '
                   'and that the C++ collapse_qubit_z is the modelled collapse Clifford are tied by the generated per-gate obligations and '
